@@ -24,6 +24,7 @@ type pg struct {
 	noNestedUse bool // use() only as a statement of its own (never inside a larger expression)
 	iterM      int // > 0 while generating the body of `for _ in m` (Go leaves insertion during map iteration unspecified)
 	loopNest   int // current loop nesting (at most 2: keeps value growth bounded)
+	locals     []string // names never initialised by the prelude: created (block-locally) by assignment, read before/after (v1 only)
 }
 
 func (g *pg) pick(xs []string) string { return xs[g.rng.Intn(len(xs))] }
@@ -70,6 +71,9 @@ func (g *pg) atomT(t string) string {
 		return g.pick([]string{"l", "[1, 2, 3]", "[]", `["x", "y"]`, "[[1], [2]]"})
 	case "map":
 		return g.pick([]string{"m", `{"a": 1, "b": [2]}`, "{}"})
+	}
+	if len(g.locals) > 0 && g.rng.Intn(6) == 0 {
+		return g.pick(g.locals) // possibly unset, block-local, or vanished with its block
 	}
 	switch g.rng.Intn(8) {
 	case 0:
@@ -167,6 +171,17 @@ func (g *pg) probe() string {
 }
 
 func (g *pg) simple() string {
+	if len(g.locals) > 0 && g.rng.Intn(5) == 0 {
+		switch g.rng.Intn(4) {
+		case 0, 1: // creates a variable local to the current block, or updates the one that exists
+			return fmt.Sprintf("%s = %s", g.pick(g.locals), g.expr(1))
+		case 2: // compound assignment to a name that may have no variable (point key or nothing)
+			return fmt.Sprintf("%s %s %s", g.pick(append(append([]string{}, g.locals...), g.keys...)), g.pick([]string{"+=", "-=", "*=", "/=", "%="}), g.exprT("int", 1))
+		default:
+			g.probeID++
+			return fmt.Sprintf("p(%d, %s, %s)", g.probeID, g.pick(g.locals), g.pick(g.keys))
+		}
+	}
 	switch g.rng.Intn(12) {
 	case 0, 1, 2:
 		return g.probe()
@@ -277,6 +292,32 @@ func (g *pg) stmt(depth int, inLoop bool, ind string) string {
 		g.loopNest++
 		body := g.block(depth-1, true, ind)
 		g.loopNest--
+		if len(g.locals) > 0 && g.rng.Intn(3) == 0 {
+			// the clauses read or create a name the body creates or reads (scope of clause vs body)
+			lv := g.pick(g.locals)
+			switch g.rng.Intn(4) {
+			case 0:
+				if cond != "" {
+					cond = cond + " && " + lv + " == nil"
+				}
+				body = "{\n" + ind + "  " + lv + " = true\n" + strings.TrimPrefix(body, "{\n")
+			case 1:
+				if loop != "" && inBody == "" {
+					loop = lv + " = " + v
+					inBody = fmt.Sprintf("%s = %s + 1", v, v)
+				}
+			case 2:
+				body = "{\n" + ind + "  " + lv + " = 2\n" + strings.TrimPrefix(body, "{\n")
+				if loop != "" && inBody == "" {
+					loop = fmt.Sprintf("%s = %s + 1", v, v) // unchanged; the probe after the loop reads lv
+				}
+			default:
+				if init != "" {
+					init = init + ", " + lv + " = 0, 7"
+					init = fmt.Sprintf("%s, %s = 0, 7", v, lv)
+				}
+			}
+		}
 		if inBody != "" {
 			// the increment goes first so that `continue` cannot make the loop endless
 			body = "{\n" + ind + "  " + inBody + "\n" + strings.TrimPrefix(body, "{\n")
@@ -322,7 +363,7 @@ func (g *pg) program(n int) string {
 		sb.WriteString(g.stmt(g.maxDepth, false, ""))
 	}
 	// final observation of all variables
-	sb.WriteString("p(" + strings.Join(g.vars, ", ") + ")\n")
+	sb.WriteString("p(" + strings.Join(append(append([]string{}, g.vars...), g.locals...), ", ") + ")\n")
 	return sb.String()
 }
 
